@@ -30,6 +30,8 @@ func checkC05(p *Prog, r *Report) {
 	c05FreshFiles(p, r)
 	sessionOpenRule(p, r, "C05.R9")
 	recordValueRule(p, r, "C05.R11")
+	// one crop record per rotation entry needs every rotation entry of the field to be read (shared with C10.R14)
+	readersAllLines(p, r, "C05.R12")
 	// the output configuration a run writes its records through (columns bound to this run's state by reflection) is
 	// built by the run itself: nothing parsed or bound is kept in the session and handed to another run (shared with
 	// C03.R2b / C11.R5)
